@@ -44,6 +44,9 @@ type Inst struct {
 	P     int    // largest Len since created, cleared or last empty
 	ncmp  *int64
 	Stats *Stats
+	// emptied: the tree held keys and became empty again at least once (part
+	// of the state key: hidden state may survive such a reset).
+	emptied, used bool
 }
 
 // Stats are coverage counters (updated only by checked steps; the caller
@@ -173,6 +176,9 @@ func MaxDepth(t *stree.Tree[Elem]) int {
 func (s *Inst) Key() string {
 	sh, _ := Shape(s.T)
 	k := fmt.Sprintf("%s m%d", sh, hiddenMax(s.T))
+	if s.emptied {
+		k += " E"
+	}
 	if s.Mode.Depth {
 		k += fmt.Sprintf(" P%d", s.P)
 	}
@@ -269,6 +275,11 @@ func (s *Inst) Apply(o Op, check bool) *mc.Failure {
 		s.P = len(s.Ref)
 	}
 	_ = nonEmptyBefore
+	if len(s.Ref) > 0 {
+		s.used = true
+	} else if s.used {
+		s.emptied = true
+	}
 	if !check {
 		return nil
 	}
